@@ -98,3 +98,62 @@ Section Names.
     - split; [exact Hs|]. rewrite Hr. reflexivity.
   Qed.
 End Names.
+
+(* ---------- $ORIGIN-relative versus absolute spelling of a name ---------- *)
+Lemma AllBytes_app (a b : name) : AllBytes a -> AllBytes b -> AllBytes (a ++ b).
+Proof. unfold AllBytes. intros. apply Forall_app; split; assumption. Qed.
+
+(* the relative spelling `n` and the absolute spelling `n.origin.` are the same name for the reader *)
+Lemma from_text_rel_abs (n o : name) :
+  Valid n -> AllBytes n -> is_absolute n = false ->
+  AllBytes o -> is_absolute o = true -> Valid (n ++ o) ->
+  NameM.from_text (to_text n) (Some o) = Ok (n ++ o) /\
+  NameM.from_text (to_text (n ++ o)) (Some o) = Ok (n ++ o).
+Proof.
+  intros V B A Bo Ao Vn.
+  assert (Habs : is_absolute (n ++ o) = true).
+  { destruct o as [|z0 z']; [discriminate|]. rewrite is_absolute_app. exact Ao. }
+  split.
+  - rewrite (text_roundtrip_origin n (Some o) V B), A. apply mk_name_valid. exact Vn.
+  - rewrite (text_roundtrip_origin (n ++ o) (Some o) Vn (AllBytes_app _ _ B Bo)), Habs. reflexivity.
+Qed.
+
+(* "@" is the current origin *)
+Lemma from_text_at (o : name) : Valid o -> AllBytes o -> is_absolute o = true ->
+  NameM.from_text [64] (Some o) = NameM.from_text (to_text o) (Some o).
+Proof.
+  intros V B A. rewrite (text_roundtrip_origin o (Some o) V B), A.
+  cbn. apply mk_name_valid. exact V.
+Qed.
+
+(* ... so a record line may spell its owner either way *)
+Theorem respell_origin_relative_proof c s co (n : name) toks lerr :
+  corigin s = Some co ->
+  Valid n -> AllBytes n -> is_absolute n = false ->
+  AllBytes co -> is_absolute co = true -> Valid (n ++ co) ->
+  rr_line c s false (TId (to_text n) :: toks) lerr =
+  rr_line c s false (TId (to_text (n ++ co)) :: toks) lerr.
+Proof.
+  intros Hco V B A Bo Ao Vn.
+  destruct (from_text_rel_abs n co V B A Bo Ao Vn) as [H1 H2].
+  unfold rr_line, as_name. rewrite Hco, H1, H2. reflexivity.
+Qed.
+
+Theorem respell_origin_at_proof c s co toks lerr :
+  corigin s = Some co -> Valid co -> AllBytes co -> is_absolute co = true ->
+  rr_line c s false (TId [64] :: toks) lerr = rr_line c s false (TId (to_text co) :: toks) lerr.
+Proof.
+  intros Hco V B A. unfold rr_line, as_name. rewrite Hco, (from_text_at co V B A). reflexivity.
+Qed.
+
+(* the same inside rdata: a name field (NS, CNAME, MX, SOA, ...) *)
+Theorem respell_rdata_name_relative_proof (n co : name) rel zo ks toks :
+  Valid n -> AllBytes n -> is_absolute n = false ->
+  AllBytes co -> is_absolute co = true -> Valid (n ++ co) ->
+  parse_fields (KName :: ks) (TId (to_text n) :: toks) co rel zo =
+  parse_fields (KName :: ks) (TId (to_text (n ++ co)) :: toks) co rel zo.
+Proof.
+  intros V B A Bo Ao Vn.
+  destruct (from_text_rel_abs n co V B A Bo Ao Vn) as [H1 H2].
+  cbn [parse_fields]. unfold as_name. rewrite H1, H2. reflexivity.
+Qed.
